@@ -310,15 +310,18 @@ def normal_form(e):
     e = sp.sympify(e)
     if e == 0:
         return sp.Integer(0)
+    e = atoms_to_symbols(e)
     e = canon_function_args(e)
-    e = sp.expand(e)
-    if e == 0:
-        return sp.Integer(0)
+    # cheap route first: one common denominator, then expand the numerator only
     num, den = sp.fraction(sp.together(e))
     num = sp.expand(num)
     if num == 0:
         return sp.Integer(0)
-    return e
+    num2, _ = sp.fraction(sp.together(num))
+    num2 = sp.expand(num2)
+    if num2 == 0:
+        return sp.Integer(0)
+    return num2 / den
 
 
 def canon_function_args(e):
@@ -338,3 +341,22 @@ def canon_function_args(e):
         except Exception:  # noqa: BLE001
             return x
     return rec(e)
+
+
+_ATOM_SYMS = {}
+
+
+def atoms_to_symbols(e):
+    """array-element atoms  V(S(k,0),1)  (uninterpreted applications with integer arguments) are replaced
+    by plain symbols, outermost first: polynomial arithmetic on symbols is much faster, and the map is
+    injective, so zero tests are unaffected"""
+    from sympy.core.function import AppliedUndef
+    rep = {}
+    for a in e.atoms(AppliedUndef):
+        if all(x.is_integer for x in a.args):
+            s = _ATOM_SYMS.get(a)
+            if s is None:
+                s = sp.Symbol(f"@{len(_ATOM_SYMS)}", real=True)
+                _ATOM_SYMS[a] = s
+            rep[a] = s
+    return e.xreplace(rep) if rep else e
